@@ -263,3 +263,37 @@ Example c29_lenient_size_instance :
   parse_chunk_size (bz " 0X_1F " ++ bz ";a=1") = Some (31, [(bz "a", Some (bz "1"))]) /\
   [32] ++ (hex_prefix 88 true ++ num [1; 21]) ++ [32] ++ render_exts [(bz "a", Some (bz "1"))] = bz " 0X_1F ;a=1".
 Proof. vm_compute. split; reflexivity. Qed.
+
+(* ------------------------------------------------------------------ *)
+(* REUSED PARSER: one Requestant / Respondent over a stream of messages *)
+(* ------------------------------------------------------------------ *)
+(* makeParser() after every complete message, next message parsed from the bytes left: the list
+   of completed messages, the current parser state and the unconsumed bytes are the same for
+   every split of the stream into receives *)
+Theorem session_split_independent : forall cf resp hr pieces,
+  sess_feed_all cf resp hr (sess_init resp hr) pieces = sess_feed cf resp hr (sess_init resp hr) (concat pieces).
+Proof. exact sess_split_independent. Qed.
+Print Assumptions session_split_independent.
+
+(* the first message of a stream is parsed exactly as a fresh parser parses it alone (so every
+   round-trip theorem above applies to it), it is logged, and the parse continues FROM THE INITIAL
+   STATE on exactly the bytes that message left unconsumed: nothing is inherited from it *)
+Theorem session_message_by_message : forall cf resp hr data s' r log,
+  http_feed cf (init_pst resp hr, []) data = (s', r) -> stage_done s' = true ->
+  sess_feed cf resp hr ((init_pst resp hr, log), []) data
+  = sess_feed cf resp hr ((init_pst resp hr, log ++ [s']), []) r.
+Proof. exact sess_feed_cons. Qed.
+Print Assumptions session_message_by_message.
+
+(* non-vacuity: POST with a body, then a GET without Content-Length, then another GET *)
+Example c29_session_instance :
+  let nl := [13; 10] in
+  let m1 := bz "POST /i HTTP/1.1" ++ nl ++ bz "Content-Length: 5" ++ nl ++ nl ++ bz "hello" in
+  let m2 := bz "GET /a HTTP/1.1" ++ nl ++ bz "Host:x" ++ nl ++ nl in
+  let m3 := bz "GET /b HTTP/1.1" ++ nl ++ nl in
+  let k := sess_feed_all cfx false false (sess_init false false)
+             [firstn 30 (m1 ++ m2 ++ m3); skipn 30 (m1 ++ m2 ++ m3)] in
+  map (fun s => (p_start s, p_body s)) (snd (fst k)) =
+    [([bz "POST"; bz "/i"], bz "hello"); ([bz "GET"; bz "/a"], []); ([bz "GET"; bz "/b"], [])]
+  /\ snd k = [].
+Proof. vm_compute. split; reflexivity. Qed.
